@@ -78,11 +78,61 @@ def handle_c07(req):
         shutil.rmtree(scratch, ignore_errors=True)
 
 
+_PRELOADED = [False]
+
+
+def preload():
+    """Load the compiled specialisations of every metric into this process WITHOUT evaluating
+    anything (dispatcher.compile only compiles / reads numba's disk cache), so that the forked
+    children do not each pay for it."""
+    if _PRELOADED[0]:
+        return
+    _PRELOADED[0] = True
+    from numba import float32, float64
+
+    c64, a64, c32 = float64[::1], float64[:], float32[::1]
+    for name, fn in B.distance.DISTANCES.items():
+        disp = getattr(fn, "__wrapped__", fn)
+        if not hasattr(disp, "compile"):
+            continue
+        sigs = [(c64, c64), (a64, a64), (a64, c64), (c64, a64)]
+        if name in B.DTYPE_METRICS:
+            sigs.append((c32, c32))
+        for sig in sigs:
+            try:
+                disp.compile(sig)
+            except Exception:  # noqa: BLE001
+                pass
+
+
+def in_pristine_fork(fn, req):
+    """Evaluate ``fn(req)`` in a child forked from this (still pristine) process."""
+    import sim.machines.c07  # noqa: F401 - imported once here (importing evaluates nothing of the library)
+
+    preload()
+
+    r, w = os.pipe()
+    pid = os.fork()
+    if pid == 0:
+        try:
+            os.close(r)
+            rep = fn(req)
+            with os.fdopen(w, "w") as f:
+                f.write(json.dumps(rep))
+        finally:
+            os._exit(0)
+    os.close(w)
+    with os.fdopen(r) as f:
+        data = f.read()
+    os.waitpid(pid, 0)
+    return json.loads(data) if data else {"error": "child produced nothing", "type": "ChildDied", "stage": "execute"}
+
+
 def handle(req):
     if req.get("c10"):
         return handle_c10(req)
     if req.get("c07"):
-        return handle_c07(req)
+        return in_pristine_fork(handle_c07, req)
     stage = "load"
     try:
         m = construct(req["kind"])
